@@ -246,8 +246,8 @@ fn run_one(ctx: &Ctx, cfg: &Cfg, script: &[usize]) -> RunInfo {
         s.bucket("termination", &format!("{}:{}{}", if fit.ok { "Ok" } else { "Err" }, term, if ended_with_reset { "+reset" } else { "" }));
     });
     // ---- oracle ----
-    if fit.ok != fit.was_successful {
-        ctx.with(|s| s.violate("C04", "ok-iff-successful", case(), format!("fit returned {} but termination {} has was_successful() = {}", if fit.ok { "Ok" } else { "Err" }, fit.termination, fit.was_successful)));
+    if fit.ok != fit.report_successful || fit.was_successful != fit.report_successful {
+        ctx.with(|s| s.violate("C04", "ok-iff-successful", case(), format!("fit returned {} but termination {} has was_successful() = {} (FitResult::was_successful() = {})", if fit.ok { "Ok" } else { "Err" }, fit.termination, fit.report_successful, fit.was_successful)));
     }
     let budget = (cfg.patience * (cfg.p + 1)) as u64;
     if fit.n_eval as u64 > budget || evals_in_fit > budget {
